@@ -22,19 +22,19 @@ def gen_cfg(kind, nq, maxt, maxrem, invariants=True, syms=("a", "b"), maxs=3, ma
 
 
 def families(tier):
-    # (kind, |Q|, MaxT, MaxRem)
+    # (kind, |Q|, MaxT, MaxRem, sample 1:k)
     if tier == "quick":
-        return [("enfa", 2, 3, 1), ("nfa", 2, 3, 0), ("dfa", 2, 3, 1)]
-    return [("enfa", 3, 3, 1), ("nfa", 3, 3, 0), ("dfa", 3, 4, 1), ("enfa", 2, 4, 1)]
+        return [("enfa", 2, 3, 1, 1), ("nfa", 2, 3, 0, 1), ("dfa", 2, 3, 1, 1)]
+    return [("enfa", 3, 3, 1, 6), ("nfa", 3, 3, 0, 2), ("dfa", 3, 4, 1, 2), ("enfa", 2, 4, 1, 1)]
 
 
 def bounds(tier):
-    return "; ".join("%s: |Q|<=%d, <=%d transitions, <=%d removals, Sigma={a,b}(+eps)" % f for f in families(tier)) + \
+    return "; ".join("%s: |Q|<=%d, <=%d transitions, <=%d removals, Sigma={a,b}(+eps), replayed 1:%d" % f for f in families(tier)) + \
         "; words over Sigma+{c} up to length 3; name pools int (all label permutations), str, mixed, tuple"
 
 
 def exhaustive(tier):
-    return True
+    return all(f[-1] == 1 for f in families(tier))
 
 
 def model_runs(tier):
@@ -81,9 +81,10 @@ def sample(states, k, seed):
 
 def generate(tier, seed, work, stats):
     cases = []
-    for kind, nq, maxt, maxrem in families(tier):
+    for kind, nq, maxt, maxrem, k in families(tier):
         states = core.tlc_dump("FAGen", gen_cfg(kind, nq, maxt, maxrem), work, stats=stats,
                                name="FAGen-%s-q%d-t%d" % (kind, nq, maxt))
+        states = sample(states, k, seed) if k > 1 else states
         pools = pools_for(nq, tier)
         for i, st in enumerate(states):
             calls = tlaparse.to_json(st["hist"])
